@@ -32,8 +32,11 @@ class ExprMixin:
         """Implicit exception: on this path continue under not cond; fork a raising path under cond."""
         if p.spec:
             return
-        cond = z3.simplify(cond)
-        if z3.is_false(cond):
+        # simplify only to recognise a trivially false condition: z3's simplifier rewrites nth into internal
+        # nth_i / nth_u forms that its own sequence solver then handles badly
+        if z3.is_false(z3.simplify(cond)):
+            if not z3.is_false(cond):
+                p.pc.append(z3.Not(cond))      # valid, but keep the unsimplified instance as a ready-made fact
             return
         i = self.choose(p, [z3.Not(cond), cond])
         if i == 1:
@@ -294,7 +297,7 @@ class ExprMixin:
 
     def binop(self, op, a, b, p, node=None):
         if op is ast.Add and isinstance(a, VBytes) and isinstance(b, VBytes):
-            return VBytes(z3.Concat(a.t, b.t), a.kind if a.kind != "memoryview" else "bytes")
+            return VBytes(self.flat_concat(a.t, b.t), a.kind if a.kind != "memoryview" else "bytes")
         if op is ast.Add and isinstance(a, VList) and isinstance(b, VList):
             if a.items is not None and b.items is not None:
                 return VList(items=a.items + b.items)
@@ -472,18 +475,18 @@ class ExprMixin:
             elem = base.t[real]
             if p.spec and z3.is_app_of(base.t, z3.Z3_OP_SEQ_EXTRACT):
                 inner, off = base.t.arg(0), base.t.arg(1)
-                p.pc.append(z3.Implies(z3.And(real >= 0, real < n, off >= 0), elem == inner[z3.simplify(off + real)]))
+                self.add_fact(p, z3.Implies(z3.And(real >= 0, real < n, off >= 0), elem == inner[self.lite_simplify(off + real)]))
             if p.spec and any(base.t.eq(bv) for bv in self.byte_vars):
                 # a declared octet-string variable: instantiate its element range at this index
-                p.pc.append(z3.Implies(z3.And(real >= 0, real < n), z3.And(elem >= 0, elem <= 255)))
+                self.add_fact(p, z3.Implies(z3.And(real >= 0, real < n), z3.And(elem >= 0, elem <= 255)))
             if not p.spec:
                 # values that flow through code are genuine octet strings: instantiate the element range on use, and
                 # see through slices (nth of an extract is nth of the underlying sequence)
                 p.pc.append(z3.And(elem >= 0, elem <= 255))
                 if z3.is_app_of(base.t, z3.Z3_OP_SEQ_EXTRACT):
                     inner, off = base.t.arg(0), base.t.arg(1)
-                    p.pc.append(elem == inner[z3.simplify(off + real)])
-                    p.pc.append(z3.And(inner[z3.simplify(off + real)] >= 0, inner[z3.simplify(off + real)] <= 255))
+                    p.pc.append(elem == inner[self.lite_simplify(off + real)])
+                    p.pc.append(z3.And(inner[self.lite_simplify(off + real)] >= 0, inner[self.lite_simplify(off + real)] <= 255))
             return VInt(elem)
         if isinstance(base, VList) and base.t is not None:
             i = self.as_int(idx)
@@ -530,6 +533,14 @@ class ExprMixin:
             return VStr(fresh(Str, "slice"))
         raise Unsupported(f"slice of {base!r}")
 
+    def add_fact(self, p, f):
+        """Append a (universally valid) instantiated fact to the path once."""
+        k = f.get_id()
+        for g in p.pc[-400:]:
+            if g.get_id() == k:
+                return
+        p.pc.append(f)
+
     def implied(self, p, cond):
         """True when the facts collected on the path so far imply cond (used only to pick simpler, equivalent terms)."""
         c = z3.simplify(cond)
@@ -548,14 +559,21 @@ class ExprMixin:
         """t[lo:hi] for already clamped lo, hi (0 <= lo, hi <= len(t)).  A slice of an exact slice is flattened to a
         slice of the underlying sequence, so that equal slices are syntactically close."""
         nonneg = self.implied(p, hi - lo >= 0)
-        d = z3.simplify(hi - lo)
+        d = self.lite_simplify(hi - lo)
         if not nonneg:
             d = z3.If(hi - lo > 0, hi - lo, z3.IntVal(0))
         if nonneg and z3.is_app_of(t, z3.Z3_OP_SEQ_EXTRACT):
             s0, o0, l0 = t.arg(0), t.arg(1), t.arg(2)
             if self.implied(p, z3.And(o0 >= 0, l0 >= 0, o0 + l0 <= z3.Length(s0), hi <= l0, lo >= 0)):
-                return z3.Extract(s0, z3.simplify(o0 + lo), d)
-        return z3.Extract(t, z3.simplify(lo), d)
+                return z3.Extract(s0, self.lite_simplify(o0 + lo), d)
+        return z3.Extract(t, self.lite_simplify(lo), d)
+
+    @staticmethod
+    def lite_simplify(t):
+        """Simplify only when the result is a numeral: z3's simplifier rewrites Length(Concat(..)) into a sum of lengths,
+        and extract terms whose length argument has that shape defeat z3's sequence solver (observed: unknown vs 0.01 s)."""
+        st = z3.simplify(t)
+        return st if z3.is_int_value(st) else t
 
     @staticmethod
     def clamp(i, n):
